@@ -18,7 +18,7 @@ def run(tier):
     cur = vlib.build("O1")
     ref = vlib.build("O1", repo=os.path.join(vlib.ROOT, "ref"), tag="ref-O1")
     wd = vlib.workdir("c08")
-    stride, offset = (4, vlib.SEED) if tier == "quick" else (1, 0)
+    stride, offset = (2, vlib.SEED) if tier == "quick" else (1, 0)
     lists = {}
     for who, exe in (("ref", ref), ("cur", cur)):
         d = os.path.join(wd, who)
@@ -46,7 +46,7 @@ def run(tier):
             if a is None or b is None:
                 continue
             if "crash" in a or "crash" in b:
-                f.write(json.dumps({"e": "crash", "file": os.path.basename(path), "writer": writer, "ref": a.get("crash"), "cur": b.get("crash")}) + "\n")
+                f.write(json.dumps({"e": "crash", "file": os.path.basename(path), "writer": writer, "ref": a.get("crash") or "", "cur": b.get("crash") or ""}) + "\n")
             else:
                 f.write(json.dumps({"e": "twobuild", "file": os.path.basename(path), "writer": writer, "ref": a, "cur": b}) + "\n")
             n += 1
